@@ -26,12 +26,15 @@ type Call struct {
 	OutEvent  string `json:"out_event"`
 	InHash    uint64 `json:"in_hash"`
 	OutHash   uint64 `json:"out_hash"`
+	InNorm    uint64 `json:"in_norm"`
+	OutNorm   uint64 `json:"out_norm"`
 	Err       string `json:"err,omitempty"`
 	Injected  bool   `json:"injected,omitempty"`
 }
 
 // Hand is everything recorded about one CreateGame and what followed.
 type Hand struct {
+	Create  Call
 	Opts    *pokerface.GameOptions
 	Initial *pokerface.GameState // state returned by CreateGame (after deck override)
 	Calls   []Call               // calls after CreateGame, in order
@@ -64,6 +67,20 @@ func HashState(gs *pokerface.GameState) uint64 {
 	h := fnv.New64a()
 	h.Write(b)
 	return h.Sum64()
+}
+
+// HashNorm hashes a state without the players' allowed actions: the table-side
+// game wrapper adds "ready" / "pay" to them between two backend calls, which is
+// not a residue of a failed call.
+func HashNorm(gs *pokerface.GameState) uint64 {
+	if gs == nil {
+		return 0
+	}
+	c := CloneState(gs)
+	for _, p := range c.Players {
+		p.AllowedActions = nil
+	}
+	return HashState(c)
 }
 
 func CloneState(gs *pokerface.GameState) *pokerface.GameState {
@@ -142,7 +159,8 @@ func (w *Wrapper) CreateGame(opts *pokerface.GameOptions) (*pokerface.GameState,
 	c.GameID = gs.GameID
 	c.OutEvent = gs.Status.CurrentEvent
 	c.OutHash = HashState(gs)
-	w.Hands = append(w.Hands, &Hand{Opts: &oc, Initial: CloneState(gs), Final: CloneState(gs)})
+	c.OutNorm = HashNorm(gs)
+	w.Hands = append(w.Hands, &Hand{Create: c, Opts: &oc, Initial: CloneState(gs), Final: CloneState(gs)})
 	w.All = append(w.All, c)
 	cb := w.OnCall
 	w.mu.Unlock()
@@ -161,6 +179,7 @@ func (w *Wrapper) do(kind string, arg int64, gs *pokerface.GameState, f func() (
 		c.CurPlayer = gs.Status.CurrentPlayer
 		c.InEvent = gs.Status.CurrentEvent
 		c.InHash = HashState(gs)
+		c.InNorm = HashNorm(gs)
 	}
 	if w.FaultFn != nil && w.FaultFn(c.Ord, kind, gs) {
 		c.Err, c.Injected = ErrInjected.Error(), true
@@ -181,6 +200,7 @@ func (w *Wrapper) do(kind string, arg int64, gs *pokerface.GameState, f func() (
 	} else {
 		c.OutEvent = out.Status.CurrentEvent
 		c.OutHash = HashState(out)
+		c.OutNorm = HashNorm(out)
 	}
 	w.All = append(w.All, c)
 	if h := w.cur(); h != nil {
